@@ -136,3 +136,15 @@ CASES += [
     dict(id='c12-and-clear-loop-never-runs', prop='C12', file=D, expect='R5',
          old="      for (size_t idx = other.mData.size(); idx < mData.size(); ++idx)\n      {\n         mData[ idx] = false;", new="      for (size_t idx = other.mData.size(); idx < other.mData.size(); ++idx)\n      {\n         mData[ idx] = false;"),
 ]
+
+CASES += [
+    dict(id='c12-postfix-copy-after-step', prop='C12', file=I, expect='R6',
+         old="      auto  copy( *this);\n      reverse();\n      return copy;",
+         new="      reverse();\n      auto  copy( *this);\n      return copy;"),
+    dict(id='c12-postfix-dec-returns-self', prop='C12', file=I, expect='R6',
+         old="      if (mCurrPos < 0)\n         mCurrPos = mpDynBitset->size();\n      return copy;",
+         new="      if (mCurrPos < 0)\n         mCurrPos = mpDynBitset->size();\n      return *this;"),
+    dict(id='c12-eq-postfix-copy-assign-form', prop='C12', file=I, expect=None,
+         old="      auto  copy( *this);\n      reverse();\n      return copy;",
+         new="      DynamicBitsetReverseIterator  before = *this;\n      reverse();\n      return before;"),
+]
